@@ -260,6 +260,9 @@ func (v c03Validator) Validate(data interface{}) *validate.Result {
 
 func c03StubValidators(b *UntypedRequestBinder) {
 	for _, pb := range b.paramBinders {
+		if pb.validator == nil {
+			continue // the stub stands for the validator the binder built, it does not add one
+		}
 		pb.validator = c03Validator{name: pb.parameter.Name, in: pb.parameter.In}
 	}
 }
@@ -433,8 +436,11 @@ func c03Scalar() {
 	}
 	decoy := (full || slice == 1) && zv.Choose("same-name-in-other-locations", 2) == 1
 	r, rp := c03Request(in, name, vals, direct, decoy)
-	binder := c03Binder(p)
 	c03FailValidation = zv.Choose("declared-validation-fails", 2) == 1
+	if c03FailValidation {
+		p.Enum = []interface{}{"never-sent"} // the declaration does declare a validation
+	}
+	binder := c03Binder(p)
 	c03ValidatorCalls = 0
 	m := map[string]interface{}{}
 	err := binder.Bind(r, rp, nil, &m)
@@ -709,12 +715,22 @@ func c03Array() {
 	}
 	decoy := (full || slice == 1) && zv.Choose("same-name-in-other-locations", 2) == 1
 	r, rp := c03Request(in, name, vals, direct, decoy)
+	// a validation declared on the items only (enum), and its verdict
+	itemValidationFails := zv.Choose("declared-item-validation-fails", 2) == 1
+	if itemValidationFails {
+		p.Items.Enum = []interface{}{"never-sent"}
+	}
 	binder := c03Binder(p)
-	c03FailValidation = false
+	c03FailValidation = itemValidationFails
 	m := map[string]interface{}{}
 	err := binder.Bind(r, rp, nil, &m)
 
 	// ---- oracle ----
+	if itemValidationFails {
+		zv.Reach("item-validation-fails")
+		zv.Assert("failed-item-validation-is-422-naming-the-parameter", c03Refused(err, name, in))
+		return
+	}
 	var items []string
 	if cf == "multi" {
 		items = vals
@@ -931,4 +947,66 @@ func VerifC03Serve() {
 	if !flagOK {
 		zv.Assert("refusal-names-the-header-parameter", named("X-Flag"))
 	}
+}
+
+// ---- sequences of declarations ----
+
+type c03ItemKind struct {
+	typ, format string
+}
+
+var c03ItemKinds = []c03ItemKind{{"integer", "int64"}, {"integer", "int32"}, {"integer", "int8"}, {"number", "float"}, {"number", "double"}, {"string", ""}}
+
+func c03ArrayDecl(name string, k c03ItemKind) spec.Parameter {
+	p := spec.Parameter{}
+	p.Name, p.In, p.Type, p.CollectionFormat = name, "query", "array", "csv"
+	p.Items = &spec.Items{}
+	p.Items.Type, p.Items.Format = k.typ, k.format
+	return p
+}
+
+func c03ItemsAre(got interface{}, k c03ItemKind, want []int64) bool {
+	switch s := got.(type) {
+	case []int64:
+		return k.format == "int64" && len(s) == len(want) && (len(s) == 0 || s[len(s)-1] == want[len(want)-1])
+	case []int32:
+		return k.format == "int32" && len(s) == len(want) && (len(s) == 0 || int64(s[len(s)-1]) == want[len(want)-1])
+	case []int8:
+		return k.format == "int8" && len(s) == len(want) && (len(s) == 0 || int64(s[len(s)-1]) == want[len(want)-1])
+	case []float32:
+		return k.format == "float" && len(s) == len(want)
+	case []float64:
+		return k.format == "double" && len(s) == len(want)
+	case []string:
+		return k.typ == "string" && len(s) == len(want)
+	}
+	return false
+}
+
+// VerifC03Sequence: what one declaration is bound to does not depend on which
+// other declarations were bound before it (in this process).
+func VerifC03Sequence() {
+	ka := c03ItemKinds[zv.Choose("first-items", len(c03ItemKinds))]
+	kb := c03ItemKinds[zv.Choose("second-items", len(c03ItemKinds))]
+	c03FailValidation = false
+	d := byte('4')
+	if kb.typ != "number" { // (number texts stay concrete: ParseFloat is not encoded symbolically)
+		d = zv.Byte("digit")
+		zv.Assume(d >= '0' && d <= '9')
+	}
+	texts := []string{"1,2", "3," + string([]byte{d})}
+	wants := [][]int64{{1, 2}, {3, int64(d - '0')}}
+	for step, k := range []c03ItemKind{ka, kb} {
+		p := c03ArrayDecl("val", k)
+		r := &http.Request{Method: "GET", Header: http.Header{}, URL: &url.URL{Path: "/p", RawQuery: "val=" + texts[step]}}
+		binder := c03Binder(p)
+		m := map[string]interface{}{}
+		err := binder.Bind(r, nil, nil, &m)
+		zv.Assert("sequence-binds", err == nil)
+		if err != nil {
+			return
+		}
+		zv.Assert("items-have-the-declared-type-whatever-was-bound-before", c03ItemsAre(m["val"], k, wants[step]))
+	}
+	zv.Reach("sequence-bound")
 }
